@@ -5,9 +5,9 @@ NOTES = ("All hooks are injected with `go build -overlay` from /verif/harness (b
 
 CHECKS = {
     "C14": {
-        "technique": "Coq theorems (chunk laws for any limit/size function, by induction over the object list) + differential correspondence of the real chunkers against the model, monitor proved sound",
-        "text": "Chunking laws are proved for all inputs in Coq (props/C14.v); the real chunkers are run on size vectors around the real limit and compared with the model inside Coq; the slice-transparency clauses are decided by the pass-level model (see level_note).",
-        "note": "Trusted: Coq kernel + vm_compute, the Go harness (object padding, index recovery), Python driver. Model hand-written; tie is differential. Sizes assumed positive (checked per case).",
+        "technique": "Coq theorems: chunk laws for any limit/size function; slice naming loop for any hash function and any store of existing slices; slice GC as a pure function (exactness + safety); sliced ObjectSet pass as a wrapper around ObjectSet.v with a trace equation after erasing slice events; differential correspondence of the real chunkers, the real DeploymentReconciler (chunkPhase/reconcileSlice/sliceGarbageCollection) and the real ObjectSet controller on inline/sliced twin worlds, judged in Coq; monitors proved sound",
+        "text": "props/C14.v proves: chunking is lossless/in order/size-bounded; the slice finally used has exactly the requested content and is controlled by the deployment, a clashing name is never reused, for every hash; GC deletes exactly labelled unreferenced slices; load after chunk is the identity; a sliced ObjectSet issues the inline ObjectSet's requests plus slice owner-reference updates in every lifecycle state (C14_sliced_fixed_equiv). Teardown equivalence was refuted for the controller before fix bcaa4f7 (witness kept). The real code is run on clashing stores (names from the real FNV hash), update histories that add/drop slices, and every lifecycle scenario twice (inline vs sliced).",
+        "note": "Trusted: Coq kernel + vm_compute; hand-written models tied by differential runs; harness (recording Store, stub chunker returning prescribed chunks, tabulation of the real hash); Python driver. Sizes positive; hash separates collision counts for termination (the Go loop is unbounded); pass-level atomicity with fresh cache; equivalence stated for ObjectSets whose referenced slices exist (a missing slice is skipped during teardown).",
     },
 }
 
@@ -44,9 +44,9 @@ CHECKS.update({
         "note": "Trusted: Coq kernel + vm_compute, the Go harness (stepwise copy of Deploy's render sequence cross-checked by running the real Deploy), the Python generator as ground-truth oracle. YAML/CEL/template execution are oracles of the model. Map iteration orders are sampled, not enumerated.",
     },
     "C17": {
-        "technique": "Coq theorems over all probe lists, objects and CEL oracles (conjunction law, unselected pass, all failures reported, stale never passes, fieldsEqual missing fails, CEL boolean); one clause refuted with witness + partial variants; differential correspondence of the real internal/probing.Parse and pkg/probing with a clause-wise monitor proved sound",
-        "text": "props/C17.v proves the composition laws of Parse for every input. The real Parse, ParseProbes and ParseSelector are run on generated probe lists x unstructured objects (malformed shapes, stale/float/string observedGeneration) and compared with the model in Coq; purity checked by deep comparison. The per-condition staleness clause is refuted for duplicate condition types (known finding, replayed on the real code).",
-        "note": "Trusted: Coq kernel + vm_compute; Go harness (message-to-reason table, index attribution); Python generator/printer. CEL evaluation is an oracle filled from the real NewCELProbe. monitor_sound assumes distinct condition types.",
+        "technique": "Coq theorems over all probe lists, objects and CEL oracles (conjunction law, unselected pass, all failures reported, stale never passes, fieldsEqual missing fails, CEL boolean); per-condition staleness proved in full after fix 9b2e4f3 (old shape kept as a v0 refutation); differential correspondence of the real internal/probing.Parse and pkg/probing with a clause-wise monitor proved sound",
+        "text": "props/C17.v proves the composition laws of Parse for every input. The real Parse, ParseProbes and ParseSelector are run on generated probe lists x unstructured objects (malformed shapes, stale/float/string observedGeneration) and compared with the model in Coq; purity checked by deep comparison. The per-condition staleness clause was refuted for duplicate condition types before fix 9b2e4f3 and is now proved without hypothesis.",
+        "note": "Trusted: Coq kernel + vm_compute; Go harness (message-to-reason table, index attribution); Python generator/printer. CEL evaluation is an oracle filled from the real NewCELProbe.",
     },
     "C20": {
         "technique": "Coq theorems over all step sequences of the two-critical-section state machine of RequestManager (induction over the schedule) + differential correspondence of the real RequestManager.Pull driven through linearised schedules (scripted gated pull, accessor under the lock), monitor proved sound; aliasing probed by mutating every returned Files map; -race sample in thorough",
@@ -87,14 +87,19 @@ CHECKS.update({
         "text": "props/C11.v proves that nothing is written unless every object of the phase passed preflight, that an ObjectSet listing the same object twice (after the namespace default) writes nothing, and that namespaced ObjectSets / same-cluster ObjectSetPhases never write, delete or release outside their namespace or on cluster-scoped kinds. A duplicate-detection defect (a2bc3f3) and a scope-check defect (aa47ee3) were found and fixed.",
         "note": _SET_NOTE + " Dry-run verdicts are scripted by the recording server (rejects marked objects, cluster-scoped kinds with a namespace, namespaced kinds without one).",
     },
+    "C10": {
+        "technique": "PARTIAL: Coq theorems for per-request idempotence of every write PKO issues (apply, release patch, preconditioned delete, owner-reference merge) + fault enumeration on the real ObjectSet controller: every request of every pass x {error before effect, lost response}, fresh controller and cache per pass (restart anywhere), third-party drift, fair rounds to quiescence, end state vs undisturbed reference",
+        "text": "props/C10.v proves that repeating any request whose effect already took place changes nothing (what makes re-running a pass after a crash or lost response safe) and that re-applying an object right after a successful apply is a no-op. Convergence itself (same end state as the undisturbed run, zero state-changing writes at quiescence) is explored on the real controller over fresh/partial/handover/teardown/archive/paused/collision worlds with every request index as a fault point and drift before every pass; that part is fault enumeration, not proof.",
+        "note": "PARTIAL. Trusted: Coq kernel; Go harness (recording server with fault injection per request index, workload-controller and garbage-collector steps), Python driver. Not proved: multi-revision convergence under arbitrary fair schedules, workqueue fairness, real informers. Drift excludes stripping ownerReferences (re-adoption is refused by collision protection, C01) and is not repaired while paused (C09) or behind a collision (C01/C03). End states compare controllers (not demoted former owners) and ignore member status, which belongs to workload controllers.",
+    },
     "C16": {
-        "technique": "Coq theorems over an executable model of one Package controller pass (pipeline of stages with oracle outcomes, every API request can fail before/after its effect; history invariant by induction) + differential correspondence of the real GenericPackageController/PackageDeployer request by request, monitor proved sound",
-        "text": "Stage-failure => no ObjectDeployment write, persisted conditions, hash short cut, template = render and the history invariant are proved for all oracle outcomes, stored states and histories (props/C16.v). The constraints clause was refuted for the code before fix cb58cda (witness kept) and is proved for the repaired Deploy. The real controller runs on generated packages, environments, edit sequences, pull failures and per-request API faults.",
-        "note": "Trusted: Coq kernel + vm_compute, Go harness (scripted puller, recording server, template identity = sha256 of canonical JSON vs a reference render), Python generator whose intended stage outcomes are the oracle. Assumed: spec hash collision free; packages small enough for no ObjectSlices; Package never deleted.",
+        "technique": "Coq theorems over an executable model of one Package controller pass (pipeline of stages with oracle outcomes; every API request can fail before/after its effect; a third party can write the ObjectDeployment before any request, giving Conflict and driving the RetryOnConflict loop; history invariant by induction) + differential correspondence of the real GenericPackageController/PackageDeployer request by request, monitor proved sound",
+        "text": "Stage-failure => no ObjectDeployment write, persisted conditions, hash short cut, template = render of the new spec (also after Conflict + re-Get + retry) and the history invariant are proved for all oracle outcomes, stored states, API-request outcomes, concurrent-writer schedules and histories (props/C16.v). The constraints clause is proved for the code as it is and refuted for the code before cb58cda (_v0_, witness kept). The real controller runs on generated packages, environments, edit sequences, pull failures, per-request API faults and concurrent writers before every request of the passes that write the deployment.",
+        "note": "Trusted: Coq kernel + vm_compute, Go harness (scripted puller, recording server, template identity = sha256 of canonical JSON vs a reference render), Python generator whose intended stage outcomes are the oracle. Assumed: spec hash collision free; packages small enough for no ObjectSlices; Package never deleted. Concurrent writer = metadata-only update of the ObjectDeployment.",
     },
     "C18": {
         "technique": "Coq theorems over an executable model of one ObjectTemplate controller pass (arbitrary render functions, kind tables, pre-states, lifted to all histories) + step-by-step differential correspondence of the real ObjectTemplate controllers (recording API server, real dynamiccache.Cache with scripted informers, real EnqueueWatchingObjects), monitor proved sound",
-        "text": "Every clause is proved per pass for arbitrary pre-states and every history (props/C18.v): writes equal the render of the values read in that pass; required-missing / unparsable / out-of-namespace leave the target unwritten with Invalid; optional-missing requeues; deletion frees then removes the finalizer; successful passes leave the template watching every source kind. The namespace clause was refuted for the code before fix aa47ee3.",
+        "text": "Every clause is proved per pass for arbitrary pre-states and every history (props/C18.v): writes equal the render of the values read in that pass; required-missing / unparsable / out-of-namespace leave the target unwritten with Invalid; optional-missing requeues; deletion frees then removes the finalizer; successful passes leave the template watching every source kind. The namespace clause is proved in full (refutation against the check before aa47ee3 kept as C18_v0_*); malformed source items and conditions (former C19 panics) are modelled as error classes.",
         "note": "Trusted: Coq kernel + vm_compute; harness (abstraction functions, Store + namespace wrapper, scripted informer); Python driver. Pass-granular interleavings; cache in sync (C12); event delivery and queue->Reconcile are runtime.",
     },
     "C19": {
